@@ -243,8 +243,33 @@ func (self *Analyzer) typeDefStatement(node pAst.TypeDefinition) ast.AnalyzedTyp
 // Singleton declaration statement
 //
 
+// Reports whether a default value exists for this type:
+// a singleton which the host does not know yet is initialized with the default value of its type.
+func hasDefaultValue(typ ast.Type) bool {
+	switch typ.Kind() {
+	case ast.FnTypeKind, ast.AnyTypeKind:
+		return false
+	case ast.ObjectTypeKind:
+		for _, field := range typ.(ast.ObjectType).ObjFields {
+			if !hasDefaultValue(field.Type) {
+				return false
+			}
+		}
+	}
+
+	return true
+}
+
 func (self *Analyzer) singletonDeclStatement(node pAst.SingletonTypeDefinition) ast.AnalyzedSingletonTypeDefinition {
 	converted := self.ConvertType(node.Type, true)
+
+	if !hasDefaultValue(converted) {
+		self.error(
+			fmt.Sprintf("Singleton type '%s' contains a function or a value of type 'any', which have no default value", node.Ident.Ident()),
+			[]string{"A singleton is initialized with the default value of its type"},
+			node.Type.Span(),
+		)
+	}
 
 	singleton, found := self.currentModule.Singletons[node.Ident.Ident()]
 	if found {
